@@ -1,5 +1,7 @@
 (* C10 - proofs. *)
-From HV Require Import Prelude C10_Model C10_Check.
+From HV Require Import Prelude Stats C10_Model C10_Check.
+From Coq Require Import PrimFloat Uint63 FloatOps SpecFloat QArith Qabs.
+Open Scope Z_scope.
 
 Section Generator.
   Variables (S D Rq : Type).
@@ -122,6 +124,94 @@ Section Generator.
   Lemma reseeded_mutant_copies_l k q n :
     replications_reseeded S D Rq reseed draw k (repeat q n) = repeat (fst (draw q (reseed k))) n.
   Proof. induction n as [|n IH]; cbn; [reflexivity|]. rewrite IH. reflexivity. Qed.
+
+  (* ---- every draw of a run, not only the first *)
+  Notation record := (record S D Rq draw).
+  Notation trace := (trace S D Rq draw).
+
+  (* a seeded run makes every one of its draws from the same state, whatever ran before,
+     and leaves the same state behind (the last element of the trace) *)
+  Lemma trace_history_independent_l {I O} (P : I -> prog D Rq O) k g g' i :
+    trace (P i) (start_state false (Some k) g) = trace (P i) (start_state false (Some k) g')
+    /\ record (P i) (start_state false (Some k) g) = record (P i) (start_state false (Some k) g').
+  Proof. rewrite !start_state_seeded. split; reflexivity. Qed.
+
+  Lemma trace_ne {R} (p : prog D Rq R) s : trace p s <> [].
+  Proof. destruct p; cbn [C10_Model.trace]; [discriminate|]. destruct (draw q s); discriminate. Qed.
+
+  Lemma trace_last {R} (p : prog D Rq R) : forall s d, last (trace p s) d = snd (run p s).
+  Proof.
+    induction p as [r|q k IH]; intros s d0; cbn [C10_Model.trace C10_Model.run].
+    - reflexivity.
+    - destruct (draw q s) as [d s'] eqn:E. specialize (IH d s' d0).
+      pose proof (trace_ne (k d) s') as Hne.
+      destruct (C10_Model.trace S D Rq draw (k d) s') as [|t ts] eqn:Et; [contradiction|].
+      exact IH.
+  Qed.
+
+  (* the bridge to models that consume a RECORDED list of draws (C01-C03): running a
+     program on a generator = replaying it on the draws recorded during that run *)
+  Lemma run_replay_l {R} (p : prog D Rq R) : forall s,
+    replay D Rq p (record p s) = Some (fst (run p s)).
+  Proof.
+    induction p as [r|q k IH]; intros s; cbn [C10_Model.record C10_Model.run C10_Model.replay].
+    - reflexivity.
+    - destruct (draw q s) as [d s']. cbn [C10_Model.replay]. apply IH.
+  Qed.
+
+  (* hence: if a model on recorded draws describes the stage (model i ds = replay (P i) ds -
+     what the C01-C03 correspondences test), the seeded command's output is the model applied
+     to a draw list that depends on the seed and the inputs only *)
+  Lemma recorded_model_history_independent_l {I O} (P : I -> prog D Rq O)
+        (model : I -> list D -> option O) :
+    (forall i ds, model i ds = replay D Rq (P i) ds) ->
+    forall k g g' i,
+      model i (record (P i) (reseed k)) = Some (fst (simgenotype_run false P (Some k) g i))
+      /\ fst (simgenotype_run false P (Some k) g i) = fst (simgenotype_run false P (Some k) g' i).
+  Proof.
+    intros Hm k g g' i. split.
+    - rewrite Hm. unfold C10_Model.simgenotype_run. rewrite start_state_seeded. apply run_replay_l.
+    - rewrite (seeded_history_independent_l P k g g' i). reflexivity.
+  Qed.
+
+  (* equal requests: the noise vectors are the values drawn in the replicates' start states *)
+  Lemma replications_repeat q R s :
+    let '(ds, ss, sf) := replications (repeat q R) s in
+    ds = map (fun t => fst (draw q t)) ss /\ length ss = R.
+  Proof.
+    pose proof (replications_chained (repeat q R) s) as H.
+    destruct (replications (repeat q R) s) as [[ds ss] sf] eqn:E. destruct H as (_ & _ & H3).
+    assert (L : forall R s ds ss sf, replications (repeat q R) s = (ds, ss, sf) -> length ss = R).
+    { clear. induction R as [|R IH]; intros s ds ss sf E; cbn in E.
+      - inversion E. reflexivity.
+      - destruct (draw q s) as [d s']. destruct (replications (repeat q R) s') as [[ds' ss'] sf'] eqn:E'.
+        inversion E. cbn. f_equal. eapply IH. exact E'. }
+    pose proof (L R s ds ss sf E) as Hl. split; [|exact Hl].
+    rewrite H3. clear E H3 L. revert ss Hl.
+    induction R as [|R IH]; intros ss Hl; destruct ss as [|t ts]; cbn in Hl; try discriminate; [reflexivity|].
+    cbn [repeat combine map fst snd]. rewrite IH; [reflexivity|lia].
+  Qed.
+
+  Lemma NoDup_map_on {A B} (f : A -> B) (l : list A) :
+    NoDup l -> (forall a b, In a l -> In b l -> f a = f b -> a = b) -> NoDup (map f l).
+  Proof.
+    induction l as [|a r IH]; intros Hn Hi; cbn [map]; [constructor|].
+    inversion Hn as [|? ? Ha Hr]; subst. constructor.
+    - intros Hin. apply in_map_iff in Hin. destruct Hin as (b & Hb & Hbr).
+      assert (b = a) by (apply Hi; [right; exact Hbr|left; reflexivity|exact Hb]). subst. contradiction.
+    - apply IH; [exact Hr|]. intros x y Hx Hy. apply Hi; right; assumption.
+  Qed.
+
+  (* threaded replicates are pairwise different for EVERY generator that does not return to
+     a state within the run and whose draws tell its states apart - no toy generator *)
+  Lemma threaded_replicates_distinct_l q R s :
+    let '(ds, ss, sf) := replications (repeat q R) s in
+    NoDup ss -> (forall a b, In a ss -> In b ss -> fst (draw q a) = fst (draw q b) -> a = b) -> NoDup ds.
+  Proof.
+    pose proof (replications_repeat q R s) as H.
+    destruct (replications (repeat q R) s) as [[ds ss] sf]. destruct H as [H _].
+    intros Hn Hi. rewrite H. apply NoDup_map_on; assumption.
+  Qed.
 End Generator.
 
 (* ---------------- the pinned guard, refuted with a toy generator *)
@@ -170,12 +260,233 @@ Proof.
   - intros Hn. rewrite Hn in H3. cbn in H3. apply nodupb_NoDup. exact H3.
 Qed.
 
-(* agree on a run means: its first draw was made from the state the model predicts *)
+(* agree on a run means: its first draw was made from the state the model predicts, and
+   both runs made the same sequence of draws from the same states and left the same state *)
 Lemma agree_genotype_meaning_l c :
   fst (check_genotype c) = true ->
-  forall k, g_seed c = Some k -> r_start (g_a c) = g_ref c /\ r_start (g_b c) = g_ref c.
+  forall k, g_seed c = Some k ->
+    r_start (g_a c) = g_ref c /\ r_start (g_b c) = g_ref c
+    /\ r_trace (g_a c) = r_trace (g_b c) /\ r_end (g_a c) = r_end (g_b c).
 Proof.
-  unfold check_genotype, model_start. cbn [fst]. intros H k Hk. rewrite Hk in H.
-  cbn in H. apply andb_true_iff in H. destruct H as [H1 H2].
-  apply Z.eqb_eq in H1. apply Z.eqb_eq in H2. auto.
+  unfold check_genotype, model_start, same_draws. cbn [fst]. intros H k Hk. rewrite Hk in H.
+  cbn in H. apply andb_true_iff in H. destruct H as [H H3].
+  apply andb_true_iff in H. destruct H as [H1 H2]. apply andb_true_iff in H3. destruct H3 as [H3 H4].
+  apply Z.eqb_eq in H1. apply Z.eqb_eq in H2. apply Z.eqb_eq in H3. apply Z.eqb_eq in H4. auto.
+Qed.
+
+(* ---------------- the replication loop *)
+Section Replicates.
+  Variables (St D Rq G P : Type).
+  Variable draw : Rq -> St -> D * St.
+  Variable pheno : G -> D -> P.
+
+  Notation replications := (replications St D Rq draw).
+  Notation run_reps := (run_reps St D Rq G P draw pheno).
+  Notation run_calls := (run_calls St D Rq G P draw pheno).
+  Notation sim := (sim St P).
+
+  (* by induction on the number of replications, for any simulator state the loop starts in:
+     the generator is threaded exactly as [replications] says and the columns appended are
+     pheno g applied to the replicates' own draws, in order *)
+  Lemma run_reps_cols_l g q : forall R (m : sim),
+    run_reps g q R m =
+    let '(ds, ss, sf) := replications (repeat q R) (sim_rng _ _ m) in
+    mksim _ _ sf (sim_cols _ _ m ++ map (pheno g) ds).
+  Proof.
+    induction R as [|R IH]; intros m; cbn [C10_Model.run_reps repeat C10_Model.replications].
+    - destruct m as [s cols]. cbn. rewrite app_nil_r. reflexivity.
+    - rewrite IH. unfold run_once. destruct (draw q (sim_rng _ _ m)) as [d s'] eqn:E.
+      cbn [sim_rng sim_cols]. destruct (replications (repeat q R) s') as [[ds ss] sf].
+      cbn [map]. rewrite <- app_assoc. reflexivity.
+  Qed.
+
+  (* the same for calls with different inputs and requests on one simulator *)
+  Lemma run_calls_cols_l : forall (calls : list (G * Rq)) (m : sim),
+    run_calls calls m =
+    let '(ds, ss, sf) := replications (map snd calls) (sim_rng _ _ m) in
+    mksim _ _ sf (sim_cols _ _ m ++ map (fun gd : G * D => pheno (fst gd) (snd gd)) (combine (map fst calls) ds)).
+  Proof.
+    induction calls as [|[g q] r IH]; intros m; cbn [C10_Model.run_calls map C10_Model.replications fst snd].
+    - destruct m as [s cols]. cbn. rewrite app_nil_r. reflexivity.
+    - rewrite IH. unfold run_once. destruct (draw q (sim_rng _ _ m)) as [d s'] eqn:E.
+      cbn [sim_rng sim_cols]. destruct (replications (map snd r) s') as [[ds ss] sf].
+      cbn [map combine fst snd]. rewrite <- app_assoc. reflexivity.
+  Qed.
+
+  Lemma run_reps_is_calls g q : forall R (m : sim), run_reps g q R m = run_calls (repeat (g, q) R) m.
+  Proof. induction R as [|R IH]; intros m; cbn; [reflexivity|apply IH]. Qed.
+
+  (* replicate k of a fresh simulator = pheno g (the k-th draw), for every R *)
+  Lemma replicate_own_draw_l g q R s k :
+    nth_error (sim_cols _ _ (run_reps g q R (mksim _ _ s []))) k
+    = option_map (pheno g) (nth_error (fst (fst (replications (repeat q R) s))) k).
+  Proof.
+    rewrite run_reps_cols_l. cbn [sim_rng sim_cols].
+    destruct (replications (repeat q R) s) as [[ds ss] sf]. cbn [app fst sim_cols].
+    apply nth_error_map.
+  Qed.
+End Replicates.
+
+(* replicate k depends on the inputs and on the draw of replicate k ONLY: two runs of the
+   loop on any two generators (other states, other draw functions, i.e. any other values in
+   all the other replicates) that agree on the k-th draw agree on the k-th column *)
+Lemma replicate_depends_on_own_draw_l :
+  forall (St1 St2 D Rq G P : Type) (draw1 : Rq -> St1 -> D * St1) (draw2 : Rq -> St2 -> D * St2)
+         (pheno : G -> D -> P) (g : G) (q : Rq) (R : nat) (s1 : St1) (s2 : St2) (k : nat),
+  nth_error (fst (fst (replications St1 D Rq draw1 (repeat q R) s1))) k
+  = nth_error (fst (fst (replications St2 D Rq draw2 (repeat q R) s2))) k ->
+  nth_error (sim_cols _ _ (run_reps St1 D Rq G P draw1 pheno g q R (mksim _ _ s1 []))) k
+  = nth_error (sim_cols _ _ (run_reps St2 D Rq G P draw2 pheno g q R (mksim _ _ s2 []))) k.
+Proof. intros. rewrite !replicate_own_draw_l. congruence. Qed.
+
+(* the cached-and-added-in-place regression does not have this property: scripted
+   generators returning (1, 5) resp. (2, 5); genetic component 10.  Replicate 2 receives
+   the same draw 5 in both runs, yet its column differs (16 / 17) because it carries
+   replicate 1's noise; the loop of the model gives 15 in both *)
+Lemma cached_inplace_refuted_l :
+  c_cols _ _ _ (run_reps_cached (list Z) Z unit Z Z script_draw Z.add (fun g => g) tt 2 (mkcsim _ _ _ [1; 5] 10 [])) = [11; 16]
+  /\ c_cols _ _ _ (run_reps_cached (list Z) Z unit Z Z script_draw Z.add (fun g => g) tt 2 (mkcsim _ _ _ [2; 5] 10 [])) = [12; 17]
+  /\ sim_cols _ _ (run_reps (list Z) Z unit Z Z script_draw Z.add 10 tt 2 (mksim _ _ [1; 5] [])) = [11; 15]
+  /\ sim_cols _ _ (run_reps (list Z) Z unit Z Z script_draw Z.add 10 tt 2 (mksim _ _ [2; 5] [])) = [12; 15].
+Proof. vm_compute. repeat split. Qed.
+
+(* the hypotheses of threaded_replicates_distinct_l are satisfiable (toy generator, 3 replicates) *)
+Lemma threaded_distinct_inhabited_l :
+  let '(ds, ss, sf) := replications Z Z unit lcg_draw (repeat tt 3) 0 in
+  NoDup ss /\ (forall a b, In a ss -> In b ss -> fst (lcg_draw tt a) = fst (lcg_draw tt b) -> a = b) /\ NoDup ds.
+Proof.
+  assert (E : replications Z Z unit lcg_draw (repeat tt 3) 0
+              = ([12345; 1406932606; 654583775], [0; 12345; 1406932606], 654583775))
+    by (vm_compute; reflexivity).
+  rewrite E. split; [|split].
+  - repeat constructor; cbn [In]; intuition discriminate.
+  - intros a b Ha Hb. cbn [In] in Ha, Hb.
+    destruct Ha as [<-|[<-|[<-|[]]]]; destruct Hb as [<-|[<-|[<-|[]]]]; intros H; try reflexivity;
+      vm_compute in H; discriminate H.
+  - repeat constructor; cbn [In]; intuition discriminate.
+Qed.
+
+(* ---------------- soundness of the checkers of the `replicates` relation *)
+Lemma sf_same_eq a b : sf_same a b = true <-> a = b.
+Proof.
+  split.
+  - destruct a as [s|s| |s m e], b as [t|t| |t n f]; cbn [sf_same]; intros H; try discriminate; try reflexivity.
+    + apply Bool.eqb_prop in H. congruence.
+    + apply Bool.eqb_prop in H. congruence.
+    + apply andb_true_iff in H. destruct H as [H H3]. apply andb_true_iff in H. destruct H as [H1 H2].
+      apply Bool.eqb_prop in H1. apply Pos.eqb_eq in H2. apply Z.eqb_eq in H3. congruence.
+  - intros <-. destruct a as [s|s| |s m e]; cbn [sf_same]; try apply Bool.eqb_reflx; [reflexivity|].
+    rewrite Bool.eqb_reflx, Pos.eqb_refl, Z.eqb_refl. reflexivity.
+Qed.
+
+(* fl_eqb decides equality of the bit patterns (nan payloads identified) *)
+Lemma fl_eqb_eq a b : fl_eqb a b = true <-> map Prim2SF a = map Prim2SF b.
+Proof.
+  unfold fl_eqb. revert b. induction a as [|x a IH]; intros [|y b]; cbn [list_eqb map]; split; intros H;
+    try reflexivity; try discriminate.
+  - apply andb_true_iff in H. destruct H as [H1 H2]. apply sf_same_eq in H1. apply IH in H2. congruence.
+  - inversion H as [[H1 H2]]. apply andb_true_iff. split; [apply sf_same_eq; exact H1|apply IH; exact H2].
+Qed.
+
+Lemma qclose_sound tol sc a b : qclose tol sc a b = true -> (Qabs (a - b) <= tol * sc)%Q.
+Proof. unfold qclose. apply Qle_bool_imp_le. Qed.
+
+Lemma ql_eqb_Forall2 a b : ql_eqb a b = true <-> Forall2 Qeq a b.
+Proof.
+  unfold ql_eqb. revert b. induction a as [|x a IH]; intros [|y b]; cbn [list_eqb]; split; intros H;
+    try constructor; try discriminate; try solve [inversion H].
+  - apply andb_true_iff in H. destruct H as [H _]. apply Qeq_bool_iff. exact H.
+  - apply andb_true_iff in H. destruct H as [_ H]. apply IH. exact H.
+  - inversion H as [|? ? ? ? H1 H2]; subst. apply andb_true_iff. split; [apply Qeq_bool_iff; exact H1|apply IH; exact H2].
+Qed.
+
+(* no two replicates have the same noise vector (as exact values) *)
+Definition noise_pairwise_distinct (reps : list qrep) : Prop :=
+  ForallOrdPairs (fun a b => ~ Forall2 Qeq (q_noise a) (q_noise b)) reps.
+
+Lemma distinct_noise_sound reps : distinct_noise reps = true -> noise_pairwise_distinct reps.
+Proof.
+  unfold noise_pairwise_distinct. induction reps as [|a r IH]; cbn [distinct_noise]; intros H; constructor.
+  - apply andb_true_iff in H. destruct H as [H _]. apply Forall_forall. intros b Hb.
+    rewrite forallb_forall in H. specialize (H b Hb). apply negb_true_iff in H.
+    intros E. apply ql_eqb_Forall2 in E. congruence.
+  - apply andb_true_iff in H. destruct H as [_ H]. auto.
+Qed.
+
+(* column - noise is one and the same vector: entrywise, up to the rounding of the two float sums *)
+Definition same_component_P (a b : qrep) : Prop :=
+  length (q_col a) = length (q_noise a) /\ length (q_col b) = length (q_noise b)
+  /\ length (q_col a) = length (q_col b)
+  /\ forall ca ea cb eb,
+       In ((ca, ea), (cb, eb)) (combine (combine (q_col a) (q_noise a)) (combine (q_col b) (q_noise b))) ->
+       (Qabs ((ca - ea) - (cb - eb)) <= tol9 * (Qabs ca + Qabs ea + Qabs cb + Qabs eb))%Q.
+
+Lemma same_component_sound a b : same_component a b = true -> same_component_P a b.
+Proof.
+  unfold same_component, same_component_P. intros H.
+  apply andb_true_iff in H. destruct H as [H H4]. apply andb_true_iff in H. destruct H as [H H3].
+  apply andb_true_iff in H. destruct H as [H1 H2].
+  apply Nat.eqb_eq in H1. apply Nat.eqb_eq in H2. apply Nat.eqb_eq in H3.
+  repeat split; try assumption. intros ca ea cb eb Hin. rewrite forallb_forall in H4.
+  specialize (H4 _ Hin). cbn in H4. apply qclose_sound. exact H4.
+Qed.
+
+(* the cases are a top set of the liabilities g + noise of this replicate *)
+Definition top_set_P (rows : list (bool * (Q * Q))) : Prop :=
+  forall ci li si cj lj sj, In (ci, (li, si)) rows -> In (cj, (lj, sj)) rows ->
+    ci = true -> cj = false -> (lj <= li + si + sj)%Q.
+
+Lemma top_set_sound rows : top_set rows = true -> top_set_P rows.
+Proof.
+  unfold top_set, top_set_P. intros H ci li si cj lj sj Hi Hj Hci Hcj.
+  rewrite forallb_forall in H. specialize (H _ Hi). cbn in H. subst ci. cbn in H.
+  rewrite forallb_forall in H. specialize (H _ Hj). cbn in H. subst cj. cbn in H.
+  apply Qle_bool_imp_le. exact H.
+Qed.
+
+Lemma holds_qreps_sound_l cc g reps :
+  holds_qreps cc g reps = true ->
+  (forallb q_noisy reps = true -> noise_pairwise_distinct reps)
+  /\ (cc = false -> forall r0 rest, reps = r0 :: rest -> forall r, In r rest -> same_component_P r0 r)
+  /\ (cc = true -> forall r, In r reps ->
+        length (q_col r) = length g /\ length (q_noise r) = length g /\ top_set_P (liab_rows g r)).
+Proof.
+  unfold holds_qreps. intros H.
+  apply andb_true_iff in H. destruct H as [H1 H2]. split; [|split].
+  - intros Hn. rewrite Hn in H1. cbn in H1. apply distinct_noise_sound. exact H1.
+  - intros Hcc r0 rest -> r Hr. rewrite Hcc in H2. rewrite forallb_forall in H2.
+    apply same_component_sound. apply H2. exact Hr.
+  - intros Hcc r Hr. rewrite Hcc in H2. rewrite forallb_forall in H2. specialize (H2 r Hr).
+    unfold cc_ok in H2. apply andb_true_iff in H2. destruct H2 as [H2 H5].
+    apply andb_true_iff in H2. destruct H2 as [H3 H4].
+    apply Nat.eqb_eq in H3. apply Nat.eqb_eq in H4. repeat split; try assumption.
+    apply top_set_sound. exact H5.
+Qed.
+
+(* the checker is not vacuous: two replicates 10 + (1, 2) and 10 + (3, 5) pass, the
+   cached-in-place columns (second = first + its noise) do not *)
+Lemma holds_qreps_example_l :
+  holds_qreps false [] [mkq true [1; 2] [11; 12]; mkq true [3; 5] [13; 15]]%Q = true
+  /\ holds_qreps false [] [mkq true [1; 2] [11; 12]; mkq true [3; 5] [14; 17]]%Q = false.
+Proof. vm_compute. split; reflexivity. Qed.
+
+(* the evaluated checker is holds_qreps on the exact values of the observed floats *)
+Lemma holds_replicates_unfold_l c reps :
+  rc_reps c = Ok reps -> holds_replicates c = holds_qreps (rc_cc c) (map f2q0 (rc_g c)) (map to_q reps).
+Proof. unfold holds_replicates. intros ->. reflexivity. Qed.
+
+(* what agree adds: the noise vectors are the consecutive draws of one generator, nothing
+   else was drawn from it, and (quantitative) the columns are the model's loop on them *)
+Lemma agree_replicates_meaning_l c reps :
+  agree_replicates c = true -> rc_reps c = Ok reps ->
+  lenZ reps = rc_R c /\ rc_end_same c = true
+  /\ (forall r, In r reps -> map Prim2SF (rr_noise r) = map Prim2SF (rr_ref r))
+  /\ (rc_cc c = false -> list_eqb fl_eqb (model_columns c) (map rr_col reps) = true).
+Proof.
+  unfold agree_replicates. intros H E. rewrite E in H.
+  apply andb_true_iff in H. destruct H as [H H5]. apply andb_true_iff in H. destruct H as [H _].
+  apply andb_true_iff in H. destruct H as [H H3]. apply andb_true_iff in H. destruct H as [H1 H2].
+  apply Z.eqb_eq in H1. repeat split; try assumption.
+  - intros r Hr. rewrite forallb_forall in H3. apply fl_eqb_eq. apply H3. exact Hr.
+  - intros Hcc. rewrite Hcc in H5. exact H5.
 Qed.
